@@ -16,6 +16,11 @@ def T(vid, pid, old, new, f=C):
     VARIANTS.append((vid, pid, 'twin', f, old, new, None))
 
 
+def TA(vid, pid, old, new, f=C):
+    """twin that replaces every occurrence of `old` (e.g. renaming a local variable)"""
+    VARIANTS.append((vid, pid, 'twin*', f, old, new, None))
+
+
 # ------------------------------------------------------------------------------------------------ C06
 SYNC_PAL = """                if do_fsync:
                     safe_flush_to_disk(
@@ -785,3 +790,151 @@ M('c16-clean-rightonly', 'C16', """            for res, where in detect_where_so
 M('c16-has-objects-set', 'C16', "        return [hashkey in existing_hashkeys for hashkey in hashkeys]", "        return [hashkey in existing_hashkeys for hashkey in set(hashkeys)]", 'C16.R2')
 T('c16-twin-threshold', 'C16', "    _MAX_CHUNK_ITERATE_LENGTH = 9500", "    _MAX_CHUNK_ITERATE_LENGTH = 5000")
 T('c16-twin-in-length', 'C16', "    _IN_SQL_MAX_LENGTH = 950", "    _IN_SQL_MAX_LENGTH = 900")
+
+# ------------------------------------------------------------------------------------------------ C02
+M('c02-has-objects-noskip', 'C02', "            hashkeys=hashkeys, skip_if_missing=True\n        ):\n            # Since I use skip_if_missing=True", "            hashkeys=hashkeys, skip_if_missing=False\n        ):\n            # Since I use skip_if_missing=True", 'C02.R1')
+M('c02-meta-exists-shortcut', 'C02', """        counter = 0
+        for (
+            obj_hashkey,
+            meta,
+        ) in self.get_objects_meta(""", """        counter = 0
+        if not self._get_loose_path_from_hashkey(hashkey).exists() and self.count_objects().packed == 0:
+            raise NotExistent(f'No object with hash key {hashkey}')
+        for (
+            obj_hashkey,
+            meta,
+        ) in self.get_objects_meta(""", 'C02.R1')
+M('c02-stream-skip-missing', 'C02', "        with self.get_objects_stream_and_meta(hashkeys=[hashkey], skip_if_missing=False) as triplets:", "        with self.get_objects_stream_and_meta(hashkeys=[hashkey], skip_if_missing=True) as triplets:", 'C02.R1')
+M('c02-retry-from-request', 'C02', "            really_not_found = loose_not_found.copy()", "            really_not_found = hashkeys_set.copy()", 'C02.R2')
+M('c02-retry-permission-error', 'C02', """            except FileNotFoundError:
+                loose_not_found.add(loose_hashkey)
+                continue""", """            except (FileNotFoundError, PermissionError):
+                loose_not_found.add(loose_hashkey)
+                continue""", 'C02.R2')
+M('c02-found-update-filtered', 'C02', "            hashkeys_in_packs.update(obj.hashkey for obj in pack_metadata)", "            hashkeys_in_packs.update(obj.hashkey for obj in pack_metadata if obj.length)", 'C02.R2')
+M('c02-missing-drops-retry-keys', 'C02', "                really_not_found.difference_update(obj.hashkey for obj in pack_metadata)", "                really_not_found.difference_update(loose_not_found)", 'C02.R2')
+M('c02-listing-skip-empty', 'C02', """            for _, hashkey in results_chunk:
+                # I need to use a comma because I want to create a tuple
+                loose_objects.difference_update((hashkey,))
+                yield hashkey""", """            for _, hashkey in results_chunk:
+                # I need to use a comma because I want to create a tuple
+                if hashkey in loose_objects:
+                    loose_objects.difference_update((hashkey,))
+                    continue
+                yield hashkey""", 'C02.R3')
+M('c02-listing-no-loose-remainder', 'C02', """        # What is left are the loose objects that are not in the packs
+        for hashkey in loose_objects:
+            yield hashkey""", """        # What is left are the loose objects that are not in the packs
+        if last_pk < 0:
+            for hashkey in loose_objects:
+                yield hashkey""", 'C02.R3')
+M('c02-count-filter', 'C02', "            loose=sum(1 for _ in self._list_loose()),", "            loose=sum(1 for _ in self._list_packs()),", 'C02.R3')
+M('c02-count-where', 'C02', "        number_packed = self._get_operation_session().scalar(select(func.count()).select_from(Obj))", "        number_packed = self._get_operation_session().scalar(select(func.count()).select_from(Obj).where(Obj.size > 0))", 'C02.R3')
+M('c02-list-loose-extra-filter', 'C02', """                    if not self._is_valid_hashkey(hashkey):
+                        continue
+                    yield hashkey""", """                    if not self._is_valid_hashkey(hashkey) or len(hashkey) < 40:
+                        continue
+                    yield hashkey""", 'C02.R3')
+M('c02-pack-unlinks-loose-directly', 'C02', """            if clean_loose_per_pack and packed_in_current_pack:
+                self._clean_loose_objects(packed_in_current_pack)""", """            if clean_loose_per_pack and packed_in_current_pack:
+                for done_hashkey in packed_in_current_pack:
+                    os.remove(self._get_loose_path_from_hashkey(done_hashkey))""", 'C02.R4')
+M('c02-delete-no-where', 'C02', "            stmt = delete(Obj).where(Obj.hashkey.in_(chunk)).execution_options(synchronize_session=False)", "            stmt = delete(Obj).execution_options(synchronize_session=False)", 'C02.R4')
+M('c02-clean-storage-rmtree-loose', 'C02', """        if vacuum:
+            self._vacuum()
+""", """        if vacuum:
+            shutil.rmtree(self._get_loose_folder() / 'tmp', ignore_errors=True)
+            self._vacuum()
+""", 'C02.R4')
+M('c02-vacuum-delete-orphans', 'C02', """    def _vacuum(self) -> None:
+        \"\"\"Perform a `VACUUM` operation on the SQLite operation.""", """    def _vacuum(self) -> None:
+        \"\"\"Perform a `VACUUM` operation on the SQLite operation.\"\"\"
+        self._get_operation_session().execute(text('DELETE FROM db_object WHERE length = 0'))
+        self._vacuum_impl()
+
+    def _vacuum_impl(self) -> None:
+        \"\"\"Perform a `VACUUM` operation on the SQLite operation.""", 'C02.R4')
+M('c02-init-drop-initialised-test', 'C02', """        if self.is_initialised:
+            raise FileExistsError(
+                'The container already exists, so you cannot initialise it - '
+                'use the clear option if you want to overwrite with a clean one'
+            )
+""", "", 'C02.R5')
+M('c02-init-drop-empty-test', 'C02', """        if os.listdir(self._folder):
+            raise FileExistsError(
+                'There is already some file or folder in the Container folder, I cannot initialise it!'
+            )
+""", "", 'C02.R5')
+M('c02-init-cache-not-reset', 'C02', """            self._config = None
+            self._current_pack_id = None
+
+        if self.is_initialised:""", """            self._config = None
+
+        if self.is_initialised:""", 'C02.R5')
+M('c02-init-rmtree-unconditional', 'C02', """        if clear:
+            self.close()
+            if self._folder.exists():
+                shutil.rmtree(self._folder)
+""", """        if clear or not self.is_initialised:
+            self.close()
+            if self._folder.exists():
+                shutil.rmtree(self._folder)
+""", 'C02.R5')
+M('c02-repack-wrong-key-column', 'C02', """                for (
+                    rowid,
+                    hashkey,
+                    size,
+                    offset,
+                    length,
+                    source_compressed,
+                ) in session.execute(stmt):""", """                for (
+                    rowid,
+                    size,
+                    hashkey,
+                    offset,
+                    length,
+                    source_compressed,
+                ) in session.execute(stmt):""", 'C02.R6')
+M('c02-repack-skip-empty-objects', 'C02', """                    obj_dict = {}
+                    obj_dict['id'] = rowid
+                    # no need to rehash""", """                    if not length:
+                        continue
+                    obj_dict = {}
+                    obj_dict['id'] = rowid
+                    # no need to rehash""", 'C02.R6')
+M('c02-loosen-direct-copy', 'C02', """        with self.get_object_stream(hashkey) as stream:
+            # This always rewrites it as loose
+            written_hashkey = self.add_streamed_object(stream)
+""", """        with self.get_object_stream(hashkey) as stream:
+            # This always rewrites it as loose
+            loose_path.parent.mkdir(exist_ok=True)
+            loose_path.write_bytes(stream.read())
+            written_hashkey = hashkey
+""", 'C02.R')
+TA('c02-twin-rename-retry-set', 'C02', "loose_not_found", "retry_keys")
+T('c02-twin-listing-discard', 'C02', "                loose_objects.difference_update((hashkey,))", "                loose_objects.discard(hashkey)")
+T('c02-twin-count-len-list', 'C02', "            loose=sum(1 for _ in self._list_loose()),", "            loose=len(list(self._list_loose())),")
+T('c02-twin-reset-order', 'C02', """            self._config = None
+            self._current_pack_id = None
+
+        if self.is_initialised:""", """            self._current_pack_id = None
+            self._config = None
+
+        if self.is_initialised:""")
+T('c02-twin-has-objects-comprehension', 'C02', """        for obj_hashkey, _ in self.get_objects_meta(  # pylint: disable=not-an-iterable
+            hashkeys=hashkeys, skip_if_missing=True
+        ):
+            # Since I use skip_if_missing=True, I should only iterate on those that exist
+            existing_hashkeys.add(obj_hashkey)
+""", """        existing_hashkeys.update(obj_hashkey for obj_hashkey, _ in self.get_objects_meta(hashkeys=hashkeys, skip_if_missing=True))
+""")
+T('c02-twin-init-empty-check-early-return', 'C02', """        if os.listdir(self._folder):
+            raise FileExistsError(
+                'There is already some file or folder in the Container folder, I cannot initialise it!'
+            )
+""", """        existing_entries = os.listdir(self._folder)
+        if existing_entries:
+            raise FileExistsError(
+                'There is already some file or folder in the Container folder, I cannot initialise it!'
+            )
+""")
